@@ -327,7 +327,10 @@ def storeP (trees : List (Bytes × Option (Node × Nat))) (h : Bytes) (t : Optio
 
 /-- `Store.MemSet`. -/
 def memSet (H : Bytes → Bytes) (s : PState) (parent : Bytes) (bh : Nat) (kvs : List (Bytes × Bytes)) : Res Bytes × PState :=
-  if kvs.isEmpty then (.ok parent, { s with trees := storeP s.trees parent none })
+  if kvs.isEmpty then
+    (.ok parent, match lookupP s.trees parent with
+      | some _ => s
+      | none => { s with trees := storeP s.trees parent none })
   else match loadTree s.db parent with
     | .notfound => (.notfound, s)
     | .panic => (.panic, s)
